@@ -37,6 +37,9 @@ type c15Script struct {
 	Cut     int    `json:"cut,omitempty"`
 	// listID is the list whose pending file a rename-fail source removes.
 	listID string
+	// gateAt > 0: an "ok" source sends that many bytes, flushes, tells the
+	// server's stalled channel and goes on when its resume channel is closed.
+	gateAt int
 }
 
 // c15FollowUpAfterFailedURLChange: before its repair in /repo a failed set_url
@@ -214,6 +217,8 @@ type c15Server struct {
 	scripts map[string]c15Script
 	url     string
 	tmpDir  string
+	stalled chan struct{}
+	resume  chan struct{}
 }
 
 func c15NewServer(t *testing.T) *c15Server {
@@ -250,6 +255,21 @@ func (s *c15Server) serve(w http.ResponseWriter, r *http.Request) {
 		fallthrough
 	case "ok":
 		w.Header().Set("Content-Type", "text/plain")
+		if sc.gateAt > 0 {
+			s.mu.Lock()
+			stalled, resume := s.stalled, s.resume
+			s.mu.Unlock()
+			_, _ = io.WriteString(w, sc.Content[:sc.gateAt])
+			w.(http.Flusher).Flush()
+			stalled <- struct{}{}
+			select {
+			case <-resume:
+			case <-r.Context().Done():
+				return
+			}
+			_, _ = io.WriteString(w, sc.Content[sc.gateAt:])
+			return
+		}
 		_, _ = io.WriteString(w, sc.Content)
 	case "status":
 		w.WriteHeader(sc.Status)
@@ -1806,6 +1826,12 @@ func TestVerifC15(t *testing.T) {
 			lim(len(good2+a2), setTo(id, true, id+100, ok(good2+a1))), rebuild,
 		}}, "write-limit-set-url")
 	}
+
+	// Two downloads in flight at once, and bodies of 1 MiB to 64 MiB and more
+	// (zz_verif_C15big_test.go).
+	c15Overlap(t, out, srv, false)
+	c15Overlap(t, out, srv, true)
+	c15BigBodies(t, out, srv)
 
 	r := vfNewRand(out.Seed)
 	n := out.Scale(250, 4000)
